@@ -12,7 +12,13 @@ PATCH=$(readlink -f "$1"); PROP=$2; TIER=${3:-quick}; SEED=${4:-1}
 ID=$$
 R=/tmp/evalrepo-$ID; V=/tmp/evalverif-$ID
 git -C /repo worktree add -q --detach $R HEAD || exit 3
-if ! git -C $R apply "$PATCH"; then echo "PATCH DOES NOT APPLY"; git -C /repo worktree remove --force $R; exit 3; fi
+if ! git -C $R apply "$PATCH" 2>/dev/null; then
+  # the patch was made against an earlier commit of /repo: merge it
+  if ! git -C $R apply --3way "$PATCH" >/dev/null 2>&1 || git -C $R diff --name-only --diff-filter=U | grep -q .; then
+    echo "PATCH DOES NOT APPLY"; git -C /repo worktree remove --force $R; exit 3
+  fi
+  git -C $R reset -q
+fi
 mkdir -p $V
 rsync -a --exclude out --exclude .git --exclude .build /verif/ $V/
 mkdir -p $V/out /tmp/evalcache/build
